@@ -131,7 +131,7 @@ def _run(ctx):
         ctx.obligation("translators:T2+T5 accept the sources", exact_leg, "a Legendre coefficient is not of the documented form")
     except Exception as e:  # noqa: BLE001
         ctx.obligation("translators:T2+T5 accept the sources", False, repr(e)[-1200:])
-    okg, outg = ctx.lake_build(["E3nnVerif.Props.C18Grid"], timeout=7000)
+    okg, outg = ctx.lake_build(["E3nnVerif.Props.C18Grid"] + (["E3nnVerif.Props.C18GridExt"] if ctx.tier == "thorough" else []), timeout=7000)
     ctx.obligation("build:Props.C18Grid (signal_on_grid = signal_xyz on the grid, certificates Cert/Ang/L0..L8)", okg, outg[-2500:])
     if okg:
         ctx.audit(["E3nnVerif.Props.C18Grid"], files=[common_path("lean/E3nnVerif/Props/C18Grid.lean")])
